@@ -13,7 +13,7 @@ MC_IdSets == {{2,3,5}}
 MC_KeyChoices == {3}
 MC_CoeffChoices == {5}
 MC_Procs == {"dealer","dkg"}
-MC_Scenarios == {"ok","small","unknown","tchange","nonzero","onelen"}
+MC_Scenarios == {"ok","small","unknown","tchange","nonzero","onelen","tchange_legacy"}
 MC_RCoeffChoices == {1,4}
 MC_Rounds == 1
 MC_MaxExtra == 1
